@@ -3,10 +3,131 @@ package beaconblock
 import (
 	"math/rand"
 
+	"github.com/protolambda/zrnt/eth2/beacon/common"
+	"github.com/protolambda/zrnt/eth2/beacon/phase0"
+
 	"verifharness/internal/chain"
+	"verifharness/internal/flat"
 )
 
-// extraMutants are this component's additions to chain.Mutations.
+// extraMutants are this component's additions to chain.Mutations: block shapes the SSZ layer would refuse but
+// the typed API lets through (malformed / over-long bitlists, over-limit index lists).
 func extraMutants(c *chain.Chain, s *chain.Step, rng *rand.Rand) []chain.Mutant {
-	return nil
+	var out []chain.Mutant
+	add := func(label, rule string, f func(b *chain.SignedBlock, body chain.BodyRef) bool) {
+		b := s.Block.Clone(c.Spec)
+		if !f(b, b.Body()) {
+			return
+		}
+		c.SignBlock(b, s.PreBlock)
+		out = append(out, chain.Mutant{Label: label, Rule: rule, Resigned: true, Block: b})
+	}
+	if n := len(*s.Block.Body().Attestations); n > 0 {
+		i := rng.Intn(n)
+		add("attestation.bits:empty-bytes", "ssz.malformed_bitlist", func(b *chain.SignedBlock, body chain.BodyRef) bool {
+			(*body.Attestations)[i].AggregationBits = phase0.AttestationBits{}
+			return true
+		})
+		add("attestation.bits:trailing-zero-byte", "ssz.malformed_bitlist", func(b *chain.SignedBlock, body chain.BodyRef) bool {
+			a := &(*body.Attestations)[i]
+			a.AggregationBits = append(append(phase0.AttestationBits{}, a.AggregationBits...), 0)
+			return true
+		})
+		add("attestation.bits:only-delimiter", "attestation.bits_length", func(b *chain.SignedBlock, body chain.BodyRef) bool {
+			(*body.Attestations)[i].AggregationBits = phase0.AttestationBits{1}
+			return true
+		})
+		add("attestation.bits:over-limit", "limits.aggregation_bits", func(b *chain.SignedBlock, body chain.BodyRef) bool {
+			n := uint64(c.Spec.MAX_VALIDATORS_PER_COMMITTEE) + 1
+			bits := make(phase0.AttestationBits, n/8+1)
+			bits[n/8] = 1 << (n % 8)
+			bits[0] = 1
+			(*body.Attestations)[i].AggregationBits = bits
+			return true
+		})
+		add("attestation.bits:extra-high-bit", "attestation.bits_length", func(b *chain.SignedBlock, body chain.BodyRef) bool {
+			// move the delimiter one bit up: one more (unset) participant bit than the committee has members
+			a := &(*body.Attestations)[i]
+			bits, ok := decodeBitlist(a.AggregationBits)
+			if !ok {
+				return false
+			}
+			n := len(bits) + 1
+			nb := make(phase0.AttestationBits, n/8+1)
+			for j, v := range bits {
+				if v {
+					nb[j/8] |= 1 << (uint(j) % 8)
+				}
+			}
+			nb[n/8] |= 1 << (uint(n) % 8)
+			a.AggregationBits = nb
+			return true
+		})
+	}
+	if n := len(*s.Block.Body().AttesterSlashings); n > 0 {
+		i := rng.Intn(n)
+		add("attester_slashing.indices:over-limit", "limits.attesting_indices", func(b *chain.SignedBlock, body chain.BodyRef) bool {
+			a := &(*body.AttesterSlashings)[i].Attestation1
+			for v := uint64(0); v <= uint64(c.Spec.MAX_VALIDATORS_PER_COMMITTEE); v++ {
+				a.AttestingIndices = append(a.AttestingIndices, common.ValidatorIndex(1<<20+v))
+			}
+			return true
+		})
+		add("attester_slashing.indices:marker", "attester_slashing.attestation_1_invalid", func(b *chain.SignedBlock, body chain.BodyRef) bool {
+			// the value ZigZagJoin uses as its end-of-list marker, as an (out of range) attesting index
+			a := &(*body.AttesterSlashings)[i].Attestation1
+			a.AttestingIndices = append(a.AttestingIndices, common.ValidatorIndex(^uint64(0)))
+			return true
+		})
+	}
+	return out
+}
+
+type stateVariant struct {
+	label, rule string
+	st          *flat.State
+}
+
+// stateVariants returns modified copies of the flat pre-block state on which the step's (otherwise valid)
+// block must be refused for a reason no mutation of the block can produce.
+func stateVariants(spec *common.Spec, s *chain.Step, fs *flat.State, rng *rand.Rand) []stateVariant {
+	var out []stateVariant
+	clone := func() *flat.State {
+		g := *fs
+		g.Validators = append([]flat.Validator(nil), fs.Validators...)
+		g.Eth1DataVotes = append([]flat.Eth1Data(nil), fs.Eth1DataVotes...)
+		g.Balances = append([]uint64(nil), fs.Balances...)
+		return &g
+	}
+	if rng.Intn(3) == 0 {
+		// the proposer has been slashed
+		g := clone()
+		p := int(s.Proposer)
+		if p < len(g.Validators) {
+			g.Validators[p].Slashed = true
+			out = append(out, stateVariant{"pre-state:proposer-slashed", "header.proposer_slashed", g})
+		}
+	}
+	if rng.Intn(3) == 0 {
+		// a block was already processed in this slot: latest_block_header.slot == state.slot
+		g := clone()
+		g.Header.Slot = g.Slot
+		out = append(out, stateVariant{"pre-state:latest-header-at-same-slot", "header.not_newer_than_latest", g})
+	}
+	if rng.Intn(4) == 0 {
+		// the eth1 votes list is already full (cannot happen at a period boundary; the list limit must hold anyway)
+		g := clone()
+		limit := int(uint64(spec.EPOCHS_PER_ETH1_VOTING_PERIOD) * uint64(spec.SLOTS_PER_EPOCH))
+		for len(g.Eth1DataVotes) < limit {
+			g.Eth1DataVotes = append(g.Eth1DataVotes, flat.Eth1Data{DepositCount: uint64(len(g.Eth1DataVotes))})
+		}
+		out = append(out, stateVariant{"pre-state:eth1-votes-full", "eth1_data.votes_list_full", g})
+	}
+	if rng.Intn(4) == 0 && flat.ForkIndex(fs.Fork) >= 3 {
+		// the withdrawal sweep cursor elsewhere: the payload's withdrawals no longer match
+		g := clone()
+		g.NextWithdrawalValIdx = (g.NextWithdrawalValIdx + 1 + uint64(rng.Intn(len(g.Validators)-1))) % uint64(len(g.Validators))
+		out = append(out, stateVariant{"pre-state:withdrawal-cursor-moved", "withdrawals.mismatch", g})
+	}
+	return out
 }
